@@ -92,7 +92,7 @@ def cases(tier, seed):
     for tup in range(6 if tier == "quick" else 12):
         for a in range(0, len(scheds), 35):
             out.append({"kind": "shared", "tuple": 500 + tup, "seed": seed, "scheds": scheds[a:a + 35], "space": len(scheds), "mode": ["default", "shared"][(tup // 3) % 2]})
-    nr = 60 if tier == "quick" else 800
+    nr = 60 if tier == "quick" else 2500
     for i in range(nr):
         out.append({"kind": "random", "i": i, "seed": seed, "tuple": 1000 + i, "first_best": i % 2 == 0})
     return out
